@@ -18,16 +18,21 @@
      MergeFrom(r, s)        merge of (a copy of) replica s             into r
    `obs` is a sequence of records [b, ch, live, keys, tomb, panic] (one per backend).
    The rules of C05 are evaluated on every observation; the names of broken rules are
-   accumulated in `bad`. *)
+   accumulated in `bad`.  The same module contributes to C01 / C02 / C03 for the tombstone
+   lattices: every merge's returned flag is compared with "the abstract value strictly grew"
+   (C02), and the events Law(a, b, c) / Ord(a, b) on explicit values check ACI of merge through
+   the revealed values and the type's own == (C01) and partial_cmp / == / is_bot / Default
+   against the merge order (C03); broken rules accumulate in `also`. *)
 EXTENDS Naturals, Integers, Sequences, FiniteSets
 
 VARIABLES
     nrep,       \* number of replicas of the current case
     seenIns,    \* seenIns[r]: set of <<k, v>> pairs whose insertion r has seen
     seenDel,    \* seenDel[r]: set of keys whose deletion r has seen
-    bad         \* set of names of property-level rules broken so far in this case
+    bad,        \* set of names of C05 rules broken so far in this case
+    also        \* rules of C01 / C02 / C03 broken so far in this case: set of <<property, rule>>
 
-mvars == <<nrep, seenIns, seenDel, bad>>
+mvars == <<nrep, seenIns, seenDel, bad, also>>
 
 Reps == 1..nrep
 
@@ -41,12 +46,14 @@ MInit(N) ==
     /\ seenIns = [r \in 1..N |-> {}]
     /\ seenDel = [r \in 1..N |-> {}]
     /\ bad = {}
+    /\ also = {}
 
 MReset(N) ==
     /\ nrep' = N
     /\ seenIns' = [r \in 1..N |-> {}]
     /\ seenDel' = [r \in 1..N |-> {}]
     /\ bad' = {}
+    /\ also' = {}
 
 Keys(S) == {p[1] : p \in S}
 
@@ -69,9 +76,15 @@ BackendsAgree(obs) ==
             /\ obs[i].keys = obs[j].keys
             /\ obs[i].ch = obs[j].ch
 
-Observe(obs, ins, del, tbefore) ==
-    bad' = bad \cup UNION {RulesOf(obs[i], ins, del, tbefore) : i \in 1..Len(obs)}
-               \cup (IF BackendsAgree(obs) THEN {} ELSE {"backends-differ"})
+\* `chk`: the call was a merge whose returned flag must say whether the value (oldlive, oldtomb)
+\* of the receiver strictly grew (C02)
+Observe(obs, ins, del, tbefore, chk, oldlive, oldtomb) ==
+    /\ bad' = bad \cup UNION {RulesOf(obs[i], ins, del, tbefore) : i \in 1..Len(obs)}
+                  \cup (IF BackendsAgree(obs) THEN {} ELSE {"backends-differ"})
+    /\ also' = also \cup
+         (IF chk /\ \E i \in 1..Len(obs) :
+                      ~obs[i].panic /\ obs[i].ch # (LiveOf(ins, del) # oldlive \/ del # oldtomb)
+          THEN {<<"C02", "changed-flag">>} ELSE {})
 
 \* replica r absorbs the pairs `ins` and deletions `del`
 Absorb(r, ins, del, obs) ==
@@ -80,7 +93,7 @@ Absorb(r, ins, del, obs) ==
     IN /\ r \in Reps
        /\ seenIns' = [seenIns EXCEPT ![r] = ni]
        /\ seenDel' = [seenDel EXCEPT ![r] = nd]
-       /\ Observe(obs, ni, nd, seenDel[r])
+       /\ Observe(obs, ni, nd, seenDel[r], TRUE, LiveOf(seenIns[r], seenDel[r]), seenDel[r])
        /\ UNCHANGED nrep
 
 MLoad(r, live, tomb, obs) ==
@@ -88,7 +101,7 @@ MLoad(r, live, tomb, obs) ==
     /\ Keys(live) \cap tomb = {}                    \* only well-formed values are constructed
     /\ seenIns' = [seenIns EXCEPT ![r] = live]
     /\ seenDel' = [seenDel EXCEPT ![r] = tomb]
-    /\ Observe(obs, live, tomb, {})
+    /\ Observe(obs, live, tomb, {}, FALSE, {}, {})
     /\ UNCHANGED nrep
 
 MInsert(r, k, v, obs) == Absorb(r, {<<k, v>>}, {}, obs)
@@ -102,6 +115,42 @@ MMergeFrom(r, s, obs) == s \in Reps /\ r # s /\ Absorb(r, seenIns[s], seenDel[s]
 ChangedFlag(r) ==
     \/ LiveOf(seenIns'[r], seenDel'[r]) # LiveOf(seenIns[r], seenDel[r])
     \/ seenDel'[r] # seenDel[r]
+
+-----------------------------------------------------------------------------
+(* The lattice on abstract values v = [live |-> pairs, tomb |-> keys] (C01, C02, C03) *)
+EmptyVal == [live |-> {}, tomb |-> {}]
+RefJoin(a, b) == [live |-> LiveOf(a.live \cup b.live, a.tomb \cup b.tomb), tomb |-> a.tomb \cup b.tomb]
+Leq(a, b) == RefJoin(b, a) = b                  \* merging a into b leaves b unchanged
+RefOrd(a, b) == IF a = b THEN "eq" ELSE IF Leq(a, b) THEN "lt" ELSE IF Leq(b, a) THEN "gt" ELSE "none"
+B3(x, t) == x = -1 \/ x = (IF t THEN 1 ELSE 0)   \* tri-state: -1 = the backend has no such operation
+
+(* one observation per backend of the ACI laws on the values a, b, c:
+   ab, ba, aa, abc1 = (a merge b) merge c, abc2 = a merge (b merge c): revealed values;
+   eqc, eqi, eqa: the type's own == on (ab, ba), (aa, a), (abc1, abc2) *)
+LawRules(o, a, b, c) ==
+    IF o.panic THEN {<<"C01", "panic">>}
+    ELSE (IF o.ab = o.ba /\ o.ab = RefJoin(a, b) /\ B3(o.eqc, TRUE) THEN {} ELSE {<<"C01", "commutativity">>})
+         \cup (IF o.aa = a /\ B3(o.eqi, TRUE) THEN {} ELSE {<<"C01", "idempotence">>})
+         \cup (IF o.abc1 = o.abc2 /\ o.abc1 = RefJoin(RefJoin(a, b), c) /\ B3(o.eqa, TRUE)
+               THEN {} ELSE {<<"C01", "associativity">>})
+
+(* one observation per backend of the order operations on a, b:
+   cmp = a.partial_cmp(b) ("lt","eq","gt","none","na"), eq = (a == b), bota / botb = is_bot,
+   defbot = Default::default().is_bot(), ch = flag returned by b.merge(a) *)
+OrdRules(o, a, b) ==
+    IF o.panic THEN {<<"C03", "panic">>}
+    ELSE (IF o.cmp = "na" \/ o.cmp = RefOrd(a, b) THEN {} ELSE {<<"C03", "partial_cmp">>})
+         \cup (IF B3(o.eq, a = b) THEN {} ELSE {<<"C03", "eq">>})
+         \cup (IF B3(o.bota, a = EmptyVal) /\ B3(o.botb, b = EmptyVal) THEN {} ELSE {<<"C03", "is_bot">>})
+         \cup (IF B3(o.defbot, TRUE) THEN {} ELSE {<<"C03", "default-not-bot">>})
+         \cup (IF o.ch = (RefJoin(b, a) # b) THEN {} ELSE {<<"C02", "changed-flag">>})
+
+MLaw(a, b, c, obs) ==
+    /\ also' = also \cup UNION {LawRules(obs[i], a, b, c) : i \in 1..Len(obs)}
+    /\ UNCHANGED <<nrep, seenIns, seenDel, bad>>
+MOrd(a, b, obs) ==
+    /\ also' = also \cup UNION {OrdRules(obs[i], a, b) : i \in 1..Len(obs)}
+    /\ UNCHANGED <<nrep, seenIns, seenDel, bad>>
 
 -----------------------------------------------------------------------------
 (* C05 *)
